@@ -131,7 +131,8 @@ Fixpoint str_byte_at (s : str) (idx : Z) : value :=
 Definition v_index (target idx : value) : outcome value :=
   match target, idx with
   | VList items, VInt i =>
-      if i <? 0 then Ok VNull else Ok (nth (Z.to_nat i) items VNull)
+      if (i <? 0) || (Z.of_nat (length items) <=? i) then Ok VNull
+      else Ok (nth (Z.to_nat i) items VNull)
   | VStr s, VInt i => Ok (str_byte_at s i)
   | VMap m, (VStr _ | VBool _ | VInt _ | VUInt _) =>
       match key_of_value idx with
